@@ -138,6 +138,7 @@ def run(ctx) -> None:
     ctx.rule("R1", "tokenise before substituting: no kwargs-derived value reaches shlex.split / shell=True")
     ctx.rule("R2", "in every command template each placeholder is exactly one token")
     ctx.rule("R3", "values are wired unmodified: message/tag/path from update down to the placeholder")
+    shapes.cli_option_rule(ctx, "R3", ["--commit-message", "--tag-message"])
 
     vcs = prog.module("vcs")
     callfn = prog.function("vcs.VCSAPI.__call__")
